@@ -112,6 +112,21 @@ def check(run, prog, tier):
                             grows = a.get("k") == "Bin" and a.get("op") in ("+", "*", "<<") and show(strip(n2["L"])) in show(a) and (const_val(a["R"]) or 0) >= (2 if a.get("op") == "*" else 1)
                             if grows and (const_val(b_) or 0) > 0:
                                 ok, why = True, "`%s` dominates the reallocation" % show(n2)[:60]
+            # (2b) the size is a local that was computed as <capacity> + <something> before the call
+            if not ok:
+                for x in walk(size):
+                    if x.get("k") == "Ref" and x.get("d") == "local":
+                        for b2, i2, n2 in f.nodes(skip_cf=False):
+                            r = None
+                            if n2.get("k") == "Decl":
+                                for vv in n2.get("vars", []):
+                                    if vv.get("id") == x.get("id") and "init" in vv:
+                                        r = strip(vv["init"])
+                            elif n2.get("k") == "Asg" and n2.get("op") == "=" and strip(n2["L"]).get("id") == x.get("id") and strip(n2["L"]).get("k") == "Ref":
+                                r = strip(n2["R"])
+                            if r is not None and r.get("k") == "Bin" and r.get("op") in ("+", "*", "<<") and f.point_dominates((b2.id, i2), (b.id, i)) and \
+                                    any(y.get("k") in ("Ref", "Mem") and y.get("d") in ("global", "static", None) and y.get("k") != "Int" for y in walk(r["L"])) and (const_val(r["R"]) is None or const_val(r["R"]) > 0):
+                                ok, why = True, "`%s = %s` dominates the reallocation" % (x.get("n"), show(r)[:50])
             # (3) exact fit
             if not ok:
                 s = strip(size)
@@ -306,3 +321,4 @@ def check(run, prog, tier):
 
     import rules.C02i as c02i
     c02i.check(run, prog, tier)
+    c02i.check_rebase(run, prog)
